@@ -7,10 +7,10 @@ RULE = ('generated charts on plain, instrumented, queued and active-object hosts
         'state X and child_state(P) for every state P, and for the chart\'s own top (chart.top, a fresh bound-method object on every access); is_in must be true exactly for the current state and its ancestors in the spec '
         'tree, child_state(P) must return the child of P on the active path (P itself when current) and must fail when P is not on the '
         'path; a TWIN chart driven with the same script but never queried must produce the same ground-truth logs, rest states, spy and '
-        'trace (so the queries changed nothing). distinct_nontrivial = distinct (host config, current depth, query kind, answer) tuples')
+        'trace (so the queries changed nothing). A quarter of the charts have DIFFERENT states that share one function name (answers are about handlers, not names; child_state answers are compared by handler identity). distinct_nontrivial = distinct (host config, current depth, query kind, answer) tuples')
 CASES = {'quick': 1500, 'thorough': 100000}
 BUDGET = {'quick': 150, 'thorough': 300}
-REQUIRE = {'is_in_queries': 20000, 'child_state_queries': 20000, 'child_state_off_path': 2000, 'twin_comparisons': 1000, 'queries_about_top': 2000}
+REQUIRE = {'is_in_queries': 20000, 'child_state_queries': 20000, 'child_state_off_path': 2000, 'twin_comparisons': 1000, 'queries_about_top': 2000, 'charts_with_states_sharing_a_name': 150}
 ASSUME = ['queries are issued between steps only (the statement quantifies there); on active objects while the object is idle']
 CFGS = [{'host': 'plain', 'spied': False}, {'host': 'plain', 'spied': True}, {'host': 'instr', 'spied': True},
         {'host': 'queued', 'spied': True, 'instrumented': True}, {'host': 'queued', 'spied': False, 'instrumented': False},
@@ -22,6 +22,13 @@ CFGS = [{'host': 'plain', 'spied': False}, {'host': 'plain', 'spied': True}, {'h
 def run_case(ctx, n):
   rng = ctx.rng('case', n)
   spec = cg.gen_spec(rng, nmax=rng.choice([5, 9, 14]), shape=rng.choice([None, 'chain', 'two']))
+  shared = rng.random() < 0.25 and spec['n'] >= 3
+  if shared:
+    # DIFFERENT states that share a function name (closures from one builder, an 'idle' substate per mode ...): the queries are
+    # about handlers, not about names
+    k = rng.randint(1, max(1, spec['n'] // 2))
+    spec['names'] = ['same_name_%d' % (i % k) for i in range(spec['n'])]
+    ctx.count('charts_with_states_sharing_a_name')
   start = rng.randrange(spec['n'])
   script = cg.gen_script(rng, spec, rng.randint(3, 15))
   cfg = rng.choice(CFGS)
@@ -54,7 +61,7 @@ def run_case(ctx, n):
     m.dispatch(sn)
     cur_at[k] = m.cur
   names = spec['names']
-  for (k, q, status, val) in res.queries:
+  for qi, (k, q, status, val) in enumerate(res.queries):
     cur = cur_at[k]
     path = cg.anc(spec, cur)          # cur, parent, ...
     x = q[1]
@@ -79,8 +86,10 @@ def run_case(ctx, n):
         i = path.index(x)
         exp = names[cur] if i == 0 else names[path[i - 1]]
         ctx.distinct((name, len(path), 'child', i))
-        if status != 'ok' or val != exp:
-          ctx.violation('C22/child-state-answer', 'child_state(%s) with current state %s answered %s/%r, expected %s' % (names[x], names[cur], status, val, exp), dict(wit, after_step=k))
+        exp_i = cur if i == 0 else path[i - 1]
+        if status != 'ok' or val != exp or res.query_answer_index.get(qi) != exp_i:
+          ctx.violation('C22/child-state-answer', 'child_state(%s) with current state %s answered %s/%r (the handler of state number %r), expected %s (state number %d)' % (
+            names[x], names[cur], status, val, res.query_answer_index.get(qi), exp, exp_i), dict(wit, after_step=k))
           return
       else:
         ctx.count('child_state_off_path')
